@@ -11,7 +11,8 @@
           display rule (WORKING shown READY, resources ABSENCE) at non-working
           rows. *)
 From Coq Require Import List ZArith QArith Bool Arith.
-From PV Require Import Model.Types Model.Sim Model.Example Proofs.Base Proofs.RunLemmas Proofs.LogsProof Proofs.C0708Proof.
+From PV Require Import Model.Types Model.Sim Model.LogEdit Model.RevLog Model.BackwardRun Model.Example Proofs.Base Proofs.RunLemmas Proofs.LogsProof Proofs.C0708Proof
+  Proofs.RevLogProof Proofs.C17Run.
 Import ListNotations.
 Open Scope nat_scope.
 
@@ -38,6 +39,28 @@ Theorem C08_any_history : forall c (ops : list op),
   AllLengths c (fold_left (apply_op c) ops (blank c)).
 Proof. exact C08_histories. Qed.
 Print Assumptions C08_any_history.
+
+(* log reversal: every log becomes the map of its row function over the
+   REVERSED history (entry k of the reversed log is the value recorded at step
+   n-1-k), so the alignment is preserved; live values, time, status untouched *)
+Theorem C08_reverse_log : forall c hc h s ab, LogsAre c hc h s ->
+  LogsAre c (rev hc) (rev h) (snd (reverse_log c (ab, s))) /\ time (snd (reverse_log c (ab, s))) = time s.
+Proof. intros c hc h s ab H. split; [apply LogsAre_reverse; exact H|reflexivity]. Qed.
+Print Assumptions C08_reverse_log.
+
+(* backward simulation (inner forward run on the reversed network with the
+   due-time helper tasks, then the optional log reversal): all logs of the
+   project's own objects have one entry per simulated step *)
+Theorem C08_backward_simulate : forall c due rv o e, o_init_log o = true ->
+  AllLengths c (snd (backward_simulate c due rv o e)).
+Proof. exact backward_lengths. Qed.
+Print Assumptions C08_backward_simulate.
+
+(* any sequence of simulate / initialize / reverse_log_information calls *)
+Theorem C08_any_history_with_reversal : forall c (ops : list (rop)),
+  AllLengths c (snd (fold_left (apply_rop c) ops ([], blank c))).
+Proof. exact histories_with_reversal. Qed.
+Print Assumptions C08_any_history_with_reversal.
 
 Theorem C08_lengths_from_history : forall c h s, length h = time s -> LogsAre c h h s -> AllLengths c s.
 Proof. exact LogsAre_lengths. Qed.
